@@ -111,4 +111,10 @@ inductive Out (α : Type) where
   | raise (cls : String)
   deriving Repr, DecidableEq
 
+instance {α : Type} [Inhabited α] : Inhabited (Out α) := ⟨.ok default⟩
+
+/-- placeholder body of a generated definition whose Python source left the translator's supported subset
+    (`Operon/Gen/GatesTranslated.lean`); its agreement theorem then fails -/
+def untranslatable {α : Type} [Inhabited α] (_construct : String) : α := default
+
 end Operon.Gates
